@@ -459,8 +459,7 @@ func (it *Interp) boundOf(t *Term, limit int) int {
 		if k > limit {
 			k = limit
 		}
-		r, _ := it.solver.Check(c, c.Bin(OpUlt, c.Int(int64(k)), t), false, nil)
-		it.nQueries++
+		r, _ := it.check(c.Bin(OpUlt, c.Int(int64(k)), t), false, false, nil, nil)
 		if r == "unsat" {
 			return k
 		}
